@@ -126,7 +126,7 @@ Definition op_array_gen_len (n : Q) : outcome Z :=
 (* [offsets]: byte offsets of the grapheme clusters of the string ([grapheme_indices]), [len] its
    byte length.  [does_match_start_and_end_on_boundary] accepts a match that starts at one of the
    offsets *or at [len]* (GraphemeCursor::is_boundary is true at the end of the string); the code
-   then looks the start up among the offsets only and [expect]s to find it. *)
+   before commit c9daf53 then looked the start up among the offsets only and [expect]ed to find it. *)
 Fixpoint position (m : Z) (l : list Z) (i : Z) : option Z :=
   match l with
   | [] => None
@@ -141,7 +141,7 @@ Definition find_all_index (offsets : list Z) (len m : Z) : outcome Z :=
   then unwrap "find_all_regex: first_match.start() occurs on a cluster boundary" (position m offsets 0)
   else Error "match filtered out (not on a cluster boundary)".
 
-(* proposed repair (proposed/C10-find-all-empty-match.diff): the end of the string is a boundary too *)
+(* since commit c9daf53 (the code as it is now): the end of the string is searched too *)
 Definition find_all_index_fixed (offsets : list Z) (len m : Z) : outcome Z :=
   if is_boundary offsets len m
   then unwrap "find_all_regex: first_match.start() occurs on a cluster boundary" (position m (offsets ++ [len]) 0)
